@@ -390,6 +390,53 @@ def r5_4(ctx):
     return n
 
 
+WIDTH = {'int': 32, 'unsigned int': 32, 'long': 64, 'unsigned long': 64, 'long long': 64,
+         'unsigned long long': 64, 'uint64_t': 64, 'int64_t': 64, 'uint32_t': 32, 'int32_t': 32,
+         'uint8_t': 32, 'uint16_t': 32, 'YR_BITMASK': 64}
+
+
+def r5_5(ctx):
+    """a bit selected as `1 << (i % M)` exists in the type the shift is computed in: M is at
+    most the width of the shifted operand.  `1 << (input % 64)` with a plain int `1` is
+    computed in 32 bits: inputs 32 apart share one bit of the 256-bit transition set, the
+    subset test of the failure-link optimisation then drops a failure state that another
+    rule's string needs."""
+    prog = ctx.prog
+    n = 0
+    for f in prog.fns():
+        if not (f.file.startswith('libyara/') or ctx.fixture) or 'tlshc' in f.file:
+            continue
+        k = 0
+        for x in sorted(f.all_nodes(), key=lambda y: (y.get('l', 0), y['i'])):
+            if x['k'] != 'bin' or x['op'] != '<<':
+                continue
+            l = cu.strip_casts(f, f.kid(x, 0))
+            r = cu.strip_casts(f, f.kid(x, 1))
+            if l is None or r is None or cu.const_of(l) is None or cu.const_of(r) is not None:
+                continue
+            M = None
+            if r['k'] == 'bin' and r['op'] == '%':
+                M = cu.const_of(cu.strip_casts(f, f.kid(r, 1)))
+            elif r['k'] == 'bin' and r['op'] == '&':
+                m_ = cu.const_of(cu.strip_casts(f, f.kid(r, 1)))
+                M = m_ + 1 if m_ is not None else None
+            if M is None:
+                continue
+            ty = (x.get('t') or '').replace('const ', '').strip()
+            w = WIDTH.get(ty)
+            if w is None:
+                continue
+            n += 1
+            ok = M <= w
+            ctx.ob('R5.5', '%s:bit#%d:modulus-fits-the-shifted-type' % (f.name, k), ok, f.loc(x),
+                   'bit index modulo %d in a %d-bit shift' % (M, w) if ok else
+                   '%s selects a bit modulo %d but is computed in %s (%d bits): indices %d apart share '
+                   'a bit (and shifting an int by 32 or more is undefined)' % (
+                       canon(f, x)[:50], M, ty, w, w))
+            k += 1
+    return n
+
+
 FIXTURES['R5.4'] = {'src': 'C05/ns.c', 'run': r5_4, 'expect': 'store_data_bad:lookup#0',
                      'expect_ok': 'store_data_good:lookup#0'}
 
@@ -403,3 +450,5 @@ def run(ctx):
     ctx.floor('R5.3', 6)
     r5_4(ctx)
     ctx.floor('R5.4', 2)
+    r5_5(ctx)
+    ctx.floor('R5.5', 20)
